@@ -93,8 +93,12 @@ Silent(s) == ~s.top
 Muts == {"none", "wrongTag", "extraTag", "missingTag", "wrongValue", "innerWrong"}
 Outer == {"a", "b", "G"}
 Variants == [outer : {p \in [1..3 -> Outer] : \A x \in Outer : \E i \in 1..3 : p[i] = x},
-             inner : {<<"c", "d">>, <<"d", "c">>}, mut : Muts, defFirst : BOOLEAN, hasValue : BOOLEAN]
-VConsistent(v) == v.mut = "wrongValue" => v.hasValue
+             inner : {<<"c", "d">>, <<"d", "c">>}, mut : Muts, defFirst : BOOLEAN, hasValue : BOOLEAN,
+             \* the sibling b of the value-taking tag a: another tag, or the SAME tag with a fixed value that sorts
+             \* before / after the substituted one (the place of a among its siblings then depends on the value)
+             sib : {"other", "sameBefore", "sameAfter"}]
+VConsistent(v) == /\ v.mut = "wrongValue" => v.hasValue
+                  /\ v.sib # "other" => v.hasValue
 \* content equals the expansion up to sibling order <=> nothing but order was changed
 AcceptExpand(v) == v.mut = "none"
 =============================================================================
